@@ -499,6 +499,26 @@ func storeDerived(n *nilAnalysis, v ssa.Value, seen map[ssa.Value]bool) (bool, s
 					}
 				}
 			}
+			// an element of a slice the function fills itself (`metas[i] = meta … for _, m := range metas`):
+			// anything stored into an element of the same slice value
+			if ia, isIA := x.X.(*ssa.IndexAddr); isIA {
+				base := core.Resolve(ia.X)
+				for _, b := range x.Parent().Blocks {
+					for _, in := range b.Instrs {
+						st, isSt := in.(*ssa.Store)
+						if !isSt {
+							continue
+						}
+						ia2, isIA2 := st.Addr.(*ssa.IndexAddr)
+						if !isIA2 || (core.Resolve(ia2.X) != base && !core.SameCellLoad(ia2.X, ia.X)) {
+							continue
+						}
+						if d, w := storeDerived(n, st.Val, seen); d {
+							return true, w + " (kept in a slice)"
+						}
+					}
+				}
+			}
 		}
 	}
 	return false, ""
